@@ -3035,3 +3035,88 @@ func (r *Report) Conjunction(key, fnKey string, a, b []string) {
 		r.Bad(k, d, w.posOr(ret.Pos(), fn), "comparisons are "+p1.String()+" and "+p2.String())
 	}
 }
+
+// SiblingCreator (C17.R1): for every method of the tunnel msgServer whose request type has Creator and TunnelID
+// fields, every state-changing keeper call is gated by msg.Creator == tunnel.Creator of GetTunnel(msg.TunnelID).
+func (r *Report) SiblingCreator(key string, min int) {
+	w := r.W
+	roots := w.ComputeRoots()
+	d := "every tunnel management handler (request has Creator+TunnelID) gates all keeper writes by msg.Creator == tunnel.Creator"
+	n := 0
+	for fn := range roots.Msg {
+		fk := FuncKey(fn)
+		if !strings.HasPrefix(fk, "x/tunnel/keeper.msgServer.") || len(fn.Params) < 3 {
+			continue
+		}
+		pt, ok := fn.Params[2].Type().(*types.Pointer)
+		if !ok {
+			continue
+		}
+		st, ok := pt.Elem().Underlying().(*types.Struct)
+		if !ok {
+			continue
+		}
+		hasC, hasT := false, false
+		for i := 0; i < st.NumFields(); i++ {
+			switch st.Field(i).Name() {
+			case "Creator":
+				hasC = true
+			case "TunnelID":
+				hasT = true
+			}
+		}
+		if !hasC || !hasT {
+			continue
+		}
+		n++
+		msgT := typeName(pt.Elem())
+		cond := Cond{Op: "EQL", A: []string{"field:" + msgT + ".Creator"}, B: []string{"field:Tunnel.Creator", "call:Keeper.GetTunnel", "field:" + msgT + ".TunnelID"}, Want: true, Desc: "msg.Creator == GetTunnel(msg.TunnelID).Creator"}
+		ifs := w.ifs(fn)
+		writes := 0
+		for _, b := range fn.Blocks {
+			for _, in := range b.Instrs {
+				ci, ok := in.(ssa.CallInstruction)
+				if !ok {
+					continue
+				}
+				name := CalleeName(ci.Common())
+				if !strings.HasPrefix(name, "x/tunnel/keeper.Keeper.") {
+					continue
+				}
+				ln := lastName(name)
+				if strings.HasPrefix(ln, "Get") || strings.HasPrefix(ln, "Has") || strings.HasPrefix(ln, "Must") || strings.HasPrefix(ln, "Validate") {
+					continue
+				}
+				writes++
+				k := key + "|" + fk + "|" + ln
+				if ok, _, det := w.gatedBy(fn, ifs, Site{in, b, ln}, cond); ok {
+					r.OK(k, d, w.Pos(in.Pos()), "gated by the creator check at "+det)
+				} else {
+					r.Bad(k, d, w.posOr(in.Pos(), fn), "keeper write "+ln+" not gated by the creator check: "+det)
+				}
+			}
+		}
+		if writes == 0 {
+			r.Unres(key+"|"+fk+"|writes", d, "handler performs no keeper write (table stale?)")
+		}
+		r.failIsError(key, fn, fk, ifs, cond)
+	}
+	if n < min {
+		r.Unres(key+"|count", d, fmt.Sprintf("%d management handlers found, expected >= %d", n, min))
+	}
+}
+
+// MustPassWhen (C17.R5): in WithdrawFromTunnel the deactivation branch's error is returned (not swallowed).
+func (r *Report) MustPassWhen(key, fnKey string) {
+	w := r.W
+	fn := w.Fn(fnKey)
+	d := "an error of DeactivateTunnel aborts the withdrawal"
+	k := key + "|" + fnKey
+	if fn == nil {
+		r.Unres(k, d, "function not found")
+		return
+	}
+	ifs := w.ifs(fn)
+	r.failIsError(key, fn, fnKey, ifs, nilErrOf("Keeper.DeactivateTunnel"))
+	_ = k
+}
